@@ -286,6 +286,8 @@ func main() {
 			runUpdate(o, ups, true)
 		case "status":
 			runStatus(o, strings.Join(t[2:], " "), nil)
+		case "coord":
+			runCoord(o, strings.Join(t[2:], " "))
 		}
 	}
 	if f.Replay != "" {
@@ -303,6 +305,14 @@ func main() {
 		for _, c := range fixedStatusCasesThorough {
 			runStatus(o, c, r.Fork())
 		}
+	}
+	// restarts of the real coordinator inside status histories
+	for _, c := range fixedCoordCases {
+		runCoord(o, c)
+	}
+	rc := r.Fork()
+	for i := 0; i < f.N/2; i++ {
+		genCoord(o, rc)
 	}
 	rs := r.Fork()
 	for i := 0; i < 3*f.N; i++ {
